@@ -374,7 +374,7 @@ pub fn run(ctx: &RunCtx) -> i32 {
         Cfg { transport: Transport::Unreliable { rto_ms: 100, gran_ms: 1, rm: 2, rc: 2 }, mech: Mech::LongTerm, fingerprint: false, max_tx: 10 },
         Cfg { transport: Transport::Reliable { timeout_ms: 300 }, mech: Mech::LongTerm, fingerprint: false, max_tx: 10 },
     ];
-    let exchanges = if thorough { 6 } else { 4 };
+    let exchanges = if thorough { 6 } else { 5 };
     let per: Vec<_> = cfgs
         .par_iter()
         .map(|cfg| {
